@@ -93,20 +93,25 @@ def drain : Nat → State Nat → State Nat
     | (s', some _) => drain f s'
     | (s', none) => s'
 
+/-- Producer offers `lo … hi-1` one after the other while the consumer is idle. -/
+def feed (s : State Nat) (lo hi : Nat) : State Nat :=
+  (List.range (hi - lo)).foldl (fun s i => (doSend s (lo + i)).1) s
+
 def stress (cap n seed : Nat) (stopAt : Option Nat) : String :=
-  let m := simLoop n stopAt (40 * n + 200) { s := init Nat cap, next := 0, rng := seed + 1 }
+  -- long runs: no random schedule (its per-step prefix check is quadratic), only "idle consumer, then drain"
+  let m : Sim := if n ≤ 1000 then simLoop n stopAt (40 * n + 200) { s := init Nat cap, next := 0, rng := seed + 1 }
+                 else { s := init Nat cap, next := 0, rng := 0 }
   match m.bad with
   | some b => s!"bad {b}"
   | none =>
     match stopAt with
     | none =>
       -- feed what the schedule has not sent yet, then drain
-      let s := (List.range n).foldl (fun s v => if v < m.next then s else (doSend s v).1) m.s
-      let s := drain (2 * n + 4) s
+      let s := drain (2 * n + 4) (feed m.s m.next n)
       if s.delivered == List.range n && s.accepted == List.range n then s!"ok n={n}"
       else s!"bad delivered={s.delivered.length} accepted={s.accepted.length}"
-    | some _ =>
-      let s := if m.s.quitClosed then m.s else (estep m.s .stop).getD m.s
+    | some k =>
+      let s := if m.s.quitClosed then m.s else (estep (feed m.s m.next (min k n)) .stop).getD m.s
       let s := settled s
       if s.pc == .exited && isPrefixB s.delivered s.accepted then "ok stopped" else "bad stop"
 
